@@ -878,6 +878,59 @@ theorem linesLoop_plain (fields : List Field) :
           exact ⟨j, by omega, e'⟩)
     simp only [ih, plainRecs]
 
+/-! ### small facts about the specification functions -/
+
+/-- the default is applied once: refreshing an already refreshed cell changes nothing. -/
+theorem defaulted_idem (f : Field) (c : Cell) : defaulted f (defaulted f c) = defaulted f c := by
+  cases c with
+  | some t => rfl
+  | none =>
+    simp only [defaulted]
+    cases h : readCell f.default with
+    | none => simp
+    | some t => rfl
+
+/-- the `k`-th sentence line (counting from 0, first identifier `i`) gives the documented item -/
+theorem plainRecs_get (fields : List Field) : ∀ (lines : List Text) (i k : Nat) (hk : k < lines.length),
+    (plainRecs fields i lines)[k]? = some (fields.map (plainVal (i + k) lines[k]))
+  | [], _, _, hk => by simp at hk
+  | l :: ls, i, 0, _ => by simp [plainRecs]
+  | l :: ls, i, k + 1, hk => by
+    have := plainRecs_get fields ls (i + 1) k (by simpa using hk)
+    simp only [plainRecs, List.getElem?_cons_succ, List.getElem_cons_succ, this]
+    congr 3
+    omega
+
+theorem plainRecs_length (fields : List Field) : ∀ (lines : List Text) (i : Nat),
+    (plainRecs fields i lines).length = lines.length
+  | [], _ => rfl
+  | _ :: ls, i => by simp [plainRecs, plainRecs_length fields ls (i + 1)]
+
+/-- what is stored and read back for an item: per field the text of its value (`None` ⇒ default),
+an empty text reading back as `None` -/
+theorem item_cells (fields : List Field) (g : Field → LVal) :
+    readRow (encodeL fields (fields.map g)) = fields.map (fun f => readCell ((g f).text f)) := by
+  unfold encodeL readRow
+  induction fields with
+  | nil => rfl
+  | cons f fs ih =>
+    simp only [List.map_cons, List.zipWith_cons_cons, List.cons.injEq, true_and]
+    exact ih
+
+/-- the clean-up of a skeleton on a freshly written relation: kept iff it is to be kept and has rows -/
+theorem cleanupOne_skeleton (k : Bool) (now : Nat) (gz : Bool) (rows : List (List Text)) :
+    cleanupOne k true (writeRel now gz rows) = if k && !rows.isEmpty then writeRel now gz rows else {} := by
+  cases k <;> cases gz <;> cases rows <;> simp [cleanupOne, writeRel]
+
+theorem cleanupOne_skeleton_keep (now : Nat) (gz : Bool) (rows : List (List Text)) (h : rows.isEmpty = false) :
+    cleanupOne true true (writeRel now gz rows) = writeRel now gz rows := by
+  rw [cleanupOne_skeleton]; simp [h]
+
+theorem cleanupOne_skeleton_drop (k : Bool) (now : Nat) (gz : Bool) (rows : List (List Text))
+    (h : k = false ∨ rows = []) : cleanupOne k true (writeRel now gz rows) = {} := by
+  rw [cleanupOne_skeleton]
+  rcases h with h | h <;> simp [h]
+
 end L
 
 end Verif.C12
